@@ -106,6 +106,27 @@ def _state_writes(f):
     return out
 
 
+def _update_callers(prog):
+    """[(function, call)]: `<task object>._update(...)` anywhere in the
+    package (receiver not self / super / a pilot)"""
+    callers = []
+    for m in prog.modules.values():
+        funcs = list(m.funcs.values())
+        for c in m.classes.values():
+            funcs += list(c.methods.values())
+        for f in funcs:
+            for c in calls_in(f.node, nested=True):
+                if isinstance(c.func, ast.Attribute) and \
+                        c.func.attr == '_update' and \
+                        unparse(c.func.value) != 'self' and \
+                        not unparse(c.func.value).startswith('super'):
+                    recv = unparse(c.func.value)
+                    if '_pilots' in recv or recv.startswith('pilot'):
+                        continue          # Pilot._update: property C14
+                    callers.append((f, c))
+    return callers
+
+
 def r06_2(prog, rep, rid='R06.2'):
     rep.rule(rid, 'Task._state is written only by Task.__init__ (NEW) and '
              'Task._update; _update is called only from the replay loop of '
@@ -160,21 +181,7 @@ def r06_2(prog, rep, rid='R06.2'):
                             f.loc(n))
     # callers of Task._update
     tm = prog.cls(*TMGR)
-    callers = []
-    for m in prog.modules.values():
-        funcs = list(m.funcs.values())
-        for c in m.classes.values():
-            funcs += list(c.methods.values())
-        for f in funcs:
-            for c in calls_in(f.node, nested=True):
-                if isinstance(c.func, ast.Attribute) and \
-                        c.func.attr == '_update' and \
-                        unparse(c.func.value) != 'self' and \
-                        not unparse(c.func.value).startswith('super'):
-                    recv = unparse(c.func.value)
-                    if '_pilots' in recv or recv.startswith('pilot'):
-                        continue          # Pilot._update: property C14
-                    callers.append((f, c))
+    callers = _update_callers(prog)
     for f, c in callers:
         okay = f.cls is tm and f.name in ('_update_tasks', '_pilot_state_cb')
         rep.check(okay, rid, f, '%s calls Task._update' % f.qual, construct=c,
@@ -260,6 +267,17 @@ def r06_3(prog, rep, rid='R06.3'):
                 if (isinstance(a.ops[0], ast.In) and lab == 'F') or \
                         (isinstance(a.ops[0], ast.NotIn) and lab == 'T'):
                     ok1 = True
+    if not ok1:
+        # not in the form `current [not] in <list>`: decide it by evaluating
+        # the method for every (DONE / FAILED, target) pair (R06.6)
+        cache = {}
+        try:
+            ok1 = all(_update_verdict(prog, f, None, None, c, t, cache)[0] ==
+                      'refused' for c in (done, failed)
+                      for t in prog.const(STATES, '_task_state_values')
+                      if t is not None)
+        except AnalysisError:
+            ok1 = False
     rep.check(ok1, rid, f, 'the state write is reached only when the current '
               'state is not DONE/FAILED', construct='update:sticky',
               message='Task._update can write the state although the task is '
@@ -825,6 +843,871 @@ def r06_5(prog, rep, rid='R06.5'):
 
 
 # ------------------------------------------------------------------------------
+# R06.6  a final state is never left on the direct update path
+#
+# Task._update and its direct callers are evaluated over the finite domain of
+# the state constants: for a fixed current state of the task and a fixed
+# target state, tests over these two (and over anything computed from them
+# and from module / class constants) have a definite outcome; tests over
+# anything else are free (both branches).  A test that depends on the two
+# states but cannot be evaluated taints the path: what is found behind it is
+# never reported as a violation (UNRECOGNISED-IDIOM instead).
+#
+_FREE = ('u', None, False)    # unknown, independent of current / target state
+_DEP  = ('u', None, True)     # unknown, computed from current / target state
+_RECV = ('recv', None, True)  # the task object itself
+_UPD  = ('upd', None, True)   # the update dict handed to Task._update
+_STATE_ATTRS = ('state', '_state')
+
+
+def _c(v, dep=False):
+    return ('c', v, dep)
+
+
+def _body_expr(fn):
+    """the expression of a function whose body is a single `return <expr>`"""
+    stmts = [s for s in fn.node.body
+             if not (isinstance(s, ast.Expr) and
+                     isinstance(s.value, ast.Constant))]
+    if len(stmts) == 1 and isinstance(stmts[0], ast.Return) and \
+            stmts[0].value is not None:
+        return stmts[0].value
+    return None
+
+
+class _Scope:
+    """one function, evaluated for a task in state `cur` and (in Task._update)
+    an update dict whose 'state' is `tgt`"""
+
+    def __init__(self, prog, f, cur, tgt=None, recv=(), site=None, depth=0):
+        from ..flow import assigned_names
+        self.prog, self.f = prog, f
+        self.cur, self.tgt = cur, tgt
+        self.recv = set(recv)         # source texts denoting the task object
+        self.site = site              # the `_update` call looked at (caller)
+        self.dparam = 'task_dict'     # name of _update's dict parameter
+        self.depth = depth
+        self.locals = set(f.params) | assigned_names(f.node)
+        self._task = None
+        self._deps = None
+        self._ideps = None
+
+    # -- expressions ----------------------------------------------------------
+    def ev(self, e, env):
+        if self.recv and isinstance(e, (ast.Name, ast.Attribute,
+                                        ast.Subscript)) and \
+                unparse(e) in self.recv:
+            return _RECV
+        m = getattr(self, '_ev_' + type(e).__name__, None)
+        return m(e, env) if m else self._opaque(e, env)
+
+    def _opaque(self, e, env):
+        dep = False
+        for n in walk(e, nested=True):
+            if isinstance(n, ast.Name):
+                v = env.get(n.id)
+                if (v is not None and v[2]) or n.id in self.recv:
+                    dep = True
+            elif isinstance(n, (ast.Attribute, ast.Subscript)) and \
+                    self.recv and unparse(n) in self.recv:
+                dep = True
+            elif isinstance(n, ast.Attribute) and n.attr in _STATE_ATTRS and \
+                    not self.foreign(n.value):
+                dep = True
+        return _DEP if dep else _FREE
+
+    def foreign(self, e):
+        """the object denoted by e is handed in from outside (reached from a
+        parameter other than self only): not one of the tasks the receiver
+        of this function knows, its `.state` says nothing about them"""
+        return self.foreign_name(root_name(e))
+
+    def foreign_name(self, r):
+        if r is None or r == 'self':
+            return False
+        params = [p for p in self.f.params if p != 'self']
+        if r in params:
+            return True
+        if self._deps is None:
+            self._deps = Deps(self.f.node, implicit=False)
+        cl = self._deps.closure(r)
+        return bool(cl & set(params)) and not any(
+            x == 'self' or x.startswith('self.') or x.startswith('ret:')
+            for x in cl)
+
+    def hidden_dep(self, test):
+        """a test the evaluator takes as free depends (flow-insensitively,
+        implicit flows included) on the state of a task after all, e.g.
+        through a container filled under a test on `<task>.state`"""
+        if self._ideps is None:
+            self._ideps = Deps(self.f.node, implicit=True)
+        for l in self._ideps.expr_depends(test):
+            head, _, attr = l.rpartition('.')
+            if attr in _STATE_ATTRS and head and '.' not in head and (
+                    head in self.recv or not self.foreign_name(head)):
+                return True
+        return False
+
+    def _ev_Constant(self, e, env):
+        return _c(e.value)
+
+    def _ev_Name(self, e, env):
+        if e.id in env:
+            return env[e.id]
+        if e.id in self.locals:
+            return _FREE
+        v = self.prog.fold(self.f.module, e)
+        return _FREE if v is UNKNOWN else _c(v)
+
+    def _ev_Attribute(self, e, env):
+        b = self.ev(e.value, env)
+        if b[0] == 'recv' and e.attr in _STATE_ATTRS:
+            return _c(self.cur, True)
+        if b[0] in ('u', 'recv'):
+            v = self.prog.fold(self.f.module, e, self.f.cls)
+            if v is not UNKNOWN:
+                return _c(v)
+        if b[0] == 'recv':
+            # a property is evaluated, a data attribute other than the state
+            # is taken as independent of the state
+            m = self.prog.find_method(self.task_cls(), e.attr)
+            if m is None:
+                return _FREE
+            body = _body_expr(m)
+            if self.depth < 3 and body is not None and 'property' in {
+                    dotted(d) for d in m.node.decorator_list} and \
+                    len(m.params) == 1:
+                sub = _Scope(self.prog, m, self.cur, None,
+                             depth=self.depth + 1)
+                return sub.ev(body, {m.params[0]: _RECV})
+            return _DEP
+        if e.attr in _STATE_ATTRS and not self.foreign(e.value):
+            return _DEP                # the state of some other task
+        return ('u', None, b[2])
+
+    def _upd_get(self, k, env):
+        if k[0] != 'c':
+            return _DEP
+        if k[1] != 'state':
+            return _FREE
+        if '#tgt' in env:
+            return env['#tgt']
+        return _DEP if self.tgt is None else _c(self.tgt, True)
+
+    def _lit_get(self, b, k, default=None):
+        if k[0] != 'c':
+            return ('u', None, True)
+        try:
+            if k[1] in b[1]:
+                return b[1][k[1]]
+        except TypeError:
+            pass
+        return default
+
+    def _ev_Subscript(self, e, env):
+        b = self.ev(e.value, env)
+        k = self.ev(e.slice, env)
+        if b[0] == 'upd':
+            return self._upd_get(k, env)
+        if b[0] == 'lit':
+            return self._lit_get(b, k) or _FREE
+        if b[0] == 'c' and k[0] == 'c':
+            try:
+                return _c(b[1][k[1]], b[2] or k[2])
+            except Exception:                                   # noqa
+                pass
+        return ('u', None, b[2] or k[2])
+
+    def _ev_Call(self, e, env):
+        fn = e.func
+        if any(isinstance(a, ast.Starred) for a in e.args) or \
+                any(k.arg is None for k in e.keywords):
+            return self._opaque(e, env)
+        args = [self.ev(a, env) for a in e.args]
+        base = None
+        if isinstance(fn, ast.Attribute):
+            base = self.ev(fn.value, env)
+            if fn.attr == 'get' and args:
+                if base[0] == 'upd':
+                    return self._upd_get(args[0], env)
+                dflt = args[1] if len(args) > 1 else _c(None)
+                if base[0] == 'lit':
+                    return self._lit_get(base, args[0], dflt)
+                if base[0] == 'c' and isinstance(base[1], dict) and \
+                        args[0][0] == 'c' and dflt[0] == 'c':
+                    try:
+                        return _c(base[1].get(args[0][1], dflt[1]),
+                                  base[2] or args[0][2])
+                    except TypeError:
+                        pass
+        name = dotted(fn)
+        if name == 'getattr' and len(args) >= 2 and args[0][0] == 'recv' and \
+                args[1][0] == 'c' and args[1][1] in _STATE_ATTRS:
+            return _c(self.cur, True)
+        if name == 'dict' and not args and e.keywords:
+            return ('lit', {k.arg: self.ev(k.value, env) for k in e.keywords},
+                    False)
+        if name in ('list', 'tuple', 'set', 'frozenset', 'len', 'bool', 'str',
+                    'sorted') and len(args) == 1 and not e.keywords and \
+                args[0][0] == 'c' and name not in self.locals:
+            try:
+                return _c({'list': list, 'tuple': tuple, 'set': set,
+                           'frozenset': frozenset, 'len': len, 'bool': bool,
+                           'str': str, 'sorted': sorted}[name](args[0][1]),
+                          args[0][2])
+            except Exception:                                   # noqa
+                pass
+        r = self._inline(e, env, args, base)
+        if r is not None:
+            return r
+        dep = any(a[2] for a in args) or bool(base and base[2]) or \
+            any(self.ev(k.value, env)[2] for k in e.keywords)
+        return _DEP if dep else _FREE
+
+    def task_cls(self):
+        if self._task is None:
+            self._task = self.prog.cls(*TASK)
+        return self._task
+
+    def _inline(self, e, env, args, base):
+        """value of a call of a helper whose body is `return <expr>`"""
+        if self.depth >= 3:
+            return None
+        fn = e.func
+        callee = None
+        if base is not None and base[0] == 'recv':
+            callee = self.prog.find_method(self.task_cls(), fn.attr)
+        elif isinstance(fn, ast.Name) and fn.id in env:
+            return None
+        else:
+            try:
+                callee = self.prog.resolve_call(self.f, e)
+            except AnalysisError:
+                callee = None
+        if callee is None:
+            return None
+        body = _body_expr(callee)
+        a = callee.node.args
+        if body is None or a.vararg or a.kwarg or a.kwonlyargs:
+            return None
+        params = [x.arg for x in a.posonlyargs + a.args]
+        deco = {dotted(d) for d in callee.node.decorator_list}
+        vals = list(args)
+        if callee.cls is not None and 'staticmethod' not in deco and \
+                callee.parent is None:
+            if base is None or 'classmethod' in deco:
+                return None
+            vals = [base] + vals
+        if len(vals) > len(params):
+            return None
+        bound = dict(zip(params, vals))
+        for k in e.keywords:
+            if k.arg not in params or k.arg in bound:
+                return None
+            bound[k.arg] = self.ev(k.value, env)
+        nd = len(a.defaults)
+        for prm, dv in zip(a.args[len(a.args) - nd:], a.defaults):
+            if prm.arg not in bound:
+                v = self.prog.fold(callee.module, dv)
+                bound[prm.arg] = _FREE if v is UNKNOWN else _c(v)
+        if any(p not in bound for p in params):
+            return None
+        sub = _Scope(self.prog, callee, self.cur, None, depth=self.depth + 1)
+        return sub.ev(body, bound)
+
+    @staticmethod
+    def _cmp(op, a, b):
+        dep = a[2] or b[2]
+        if a[0] != 'c' or b[0] != 'c':
+            return ('u', None, dep)
+        x, y = a[1], b[1]
+        try:
+            if isinstance(op, ast.Eq):
+                return _c(x == y, dep)
+            if isinstance(op, ast.NotEq):
+                return _c(x != y, dep)
+            if isinstance(op, ast.In):
+                return _c(x in y, dep)
+            if isinstance(op, ast.NotIn):
+                return _c(x not in y, dep)
+            if isinstance(op, (ast.Is, ast.IsNot)):
+                if any(z is None or isinstance(z, bool) for z in (x, y)):
+                    r = x is y
+                    return _c(r if isinstance(op, ast.Is) else not r, dep)
+                return ('u', None, dep)
+            if isinstance(op, ast.Lt):
+                return _c(x < y, dep)
+            if isinstance(op, ast.LtE):
+                return _c(x <= y, dep)
+            if isinstance(op, ast.Gt):
+                return _c(x > y, dep)
+            if isinstance(op, ast.GtE):
+                return _c(x >= y, dep)
+        except Exception:                                       # noqa
+            pass
+        return ('u', None, dep)
+
+    def _ev_Compare(self, e, env):
+        vals = [self.ev(x, env) for x in [e.left] + list(e.comparators)]
+        dep = False
+        for i, op in enumerate(e.ops):
+            v = self._cmp(op, vals[i], vals[i + 1])
+            if v[0] != 'c':
+                return ('u', None, any(x[2] for x in vals))
+            dep = dep or v[2]
+            if not v[1]:
+                return _c(False, dep)
+        return _c(True, dep)
+
+    @staticmethod
+    def truth(v):
+        """True / False / None (unknown)"""
+        if v[0] == 'c':
+            return bool(v[1])
+        if v[0] == 'recv':
+            return True
+        if v[0] == 'lit':
+            return bool(v[1])
+        return None
+
+    def _ev_BoolOp(self, e, env):
+        is_and = isinstance(e.op, ast.And)
+        dep, unk, last = False, False, None
+        for x in e.values:
+            v = self.ev(x, env)
+            t = self.truth(v)
+            dep = dep or v[2]
+            if t is None:
+                unk = True
+                continue
+            if t != is_and:
+                # a falsy operand of `and` / a truthy operand of `or` decides
+                # the truth of the whole (its value only if nothing unknown
+                # came before)
+                return _c(v[1] if not unk and v[0] == 'c' else t, dep)
+            last = v
+        if unk or last is None:
+            return ('u', None, dep)
+        return (last[0], last[1], dep)
+
+    def _ev_UnaryOp(self, e, env):
+        v = self.ev(e.operand, env)
+        if isinstance(e.op, ast.Not):
+            t = self.truth(v)
+            return ('u', None, v[2]) if t is None else _c(not t, v[2])
+        if v[0] == 'c':
+            try:
+                if isinstance(e.op, ast.USub):
+                    return _c(-v[1], v[2])
+                if isinstance(e.op, ast.UAdd):
+                    return _c(+v[1], v[2])
+            except Exception:                                   # noqa
+                pass
+        return ('u', None, v[2])
+
+    def _ev_BinOp(self, e, env):
+        l, r = self.ev(e.left, env), self.ev(e.right, env)
+        dep = l[2] or r[2]
+        if l[0] == 'c' and r[0] == 'c':
+            try:
+                if isinstance(e.op, ast.Add):
+                    return _c(l[1] + r[1], dep)
+                if isinstance(e.op, ast.Sub):
+                    return _c(l[1] - r[1], dep)
+                if isinstance(e.op, ast.Mult):
+                    return _c(l[1] * r[1], dep)
+                if isinstance(e.op, ast.Mod):
+                    return _c(l[1] % r[1], dep)
+            except Exception:                                   # noqa
+                pass
+        return ('u', None, dep)
+
+    def _ev_IfExp(self, e, env):
+        t = self.ev(e.test, env)
+        tt = self.truth(t)
+        if tt is not None:
+            v = self.ev(e.body if tt else e.orelse, env)
+            return (v[0], v[1], v[2] or t[2])
+        a, b = self.ev(e.body, env), self.ev(e.orelse, env)
+        if a[0] == 'c' and b[0] == 'c' and repr(a[1]) == repr(b[1]):
+            return _c(a[1], a[2] or b[2])
+        return ('u', None, t[2] or a[2] or b[2])
+
+    def _ev_JoinedStr(self, e, env):
+        out, dep = '', False
+        for p in e.values:
+            if isinstance(p, ast.Constant):
+                out += str(p.value)
+                continue
+            if not isinstance(p, ast.FormattedValue) or p.conversion != -1 \
+                    or p.format_spec is not None:
+                return self._opaque(e, env)
+            v = self.ev(p.value, env)
+            dep = dep or v[2]
+            if v[0] != 'c' or not isinstance(v[1], (str, int)):
+                return ('u', None, dep)
+            out += str(v[1])
+        return _c(out, dep)
+
+    def _seq(self, e, env, ctor):
+        vals = []
+        for x in e.elts:
+            if isinstance(x, ast.Starred):
+                return self._opaque(e, env)
+            vals.append(self.ev(x, env))
+        dep = any(v[2] for v in vals)
+        if all(v[0] == 'c' for v in vals):
+            try:
+                return _c(ctor([v[1] for v in vals]), dep)
+            except TypeError:
+                pass
+        return ('u', None, dep)
+
+    def _ev_List(self, e, env):
+        return self._seq(e, env, list)
+
+    def _ev_Tuple(self, e, env):
+        return self._seq(e, env, tuple)
+
+    def _ev_Set(self, e, env):
+        return self._seq(e, env, set)
+
+    def _ev_Dict(self, e, env):
+        out = {}
+        for k, v in zip(e.keys, e.values):
+            kk = self.ev(k, env) if k is not None else _DEP
+            if kk[0] != 'c':
+                return self._opaque(e, env)
+            try:
+                out[kk[1]] = self.ev(v, env)
+            except TypeError:
+                return self._opaque(e, env)
+        return ('lit', out, any(v[2] for v in out.values()))
+
+    # -- statements -----------------------------------------------------------
+    def bind(self, t, v, env, evs):
+        if isinstance(t, ast.Name):
+            env[t.id] = v
+        elif isinstance(t, (ast.Tuple, ast.List)):
+            if v[0] == 'c' and isinstance(v[1], (list, tuple)) and \
+                    len(v[1]) == len(t.elts) and \
+                    not any(isinstance(x, ast.Starred) for x in t.elts):
+                for x, y in zip(t.elts, v[1]):
+                    self.bind(x, _c(y, v[2]), env, evs)
+            else:
+                for x in t.elts:
+                    self.bind(x, ('u', None, v[2]), env, evs)
+        elif isinstance(t, ast.Starred):
+            self.bind(t.value, ('u', None, v[2]), env, evs)
+        elif isinstance(t, ast.Attribute):
+            b = self.ev(t.value, env)
+            if b[0] == 'recv' and t.attr in _STATE_ATTRS:
+                evs.append(('write', v, False))
+        elif isinstance(t, ast.Subscript):
+            b = self.ev(t.value, env)
+            k = self.ev(t.slice, env)
+            if b[0] == 'upd':
+                if k[0] != 'c':
+                    env['#tgt'] = _DEP
+                elif k[1] == 'state':
+                    env['#tgt'] = v
+            elif b[0] == 'lit' and isinstance(t.value, ast.Name):
+                if k[0] == 'c':
+                    try:
+                        d = dict(b[1])
+                        d[k[1]] = v
+                        env[t.value.id] = ('lit', d, b[2] or v[2])
+                    except TypeError:
+                        env[t.value.id] = _DEP
+                else:
+                    env[t.value.id] = _DEP
+            elif isinstance(t.value, ast.Attribute) and \
+                    t.value.attr == '__dict__' and \
+                    self.ev(t.value.value, env)[0] == 'recv':
+                evs.append(('write', v, k[0] != 'c' or k[1] != '_state'))
+
+    def _writes_state(self, callee, seen=None, depth=2):
+        """a method of the task class that (transitively) writes the state"""
+        seen = seen if seen is not None else set()
+        if callee is None or id(callee) in seen:
+            return False
+        seen.add(id(callee))
+        if _state_writes(callee):
+            return True
+        if depth <= 0:
+            return False
+        for c in calls_in(callee.node):
+            if isinstance(c.func, ast.Attribute) and \
+                    unparse(c.func.value) == 'self' and self._writes_state(
+                        self.prog.find_method(self.task_cls(), c.func.attr),
+                        seen, depth - 1):
+                return True
+        return False
+
+    def call_events(self, st, env, evs):
+        for c in calls_in(st):
+            if self.site is not None and c is self.site:
+                a = kwarg(c, self.dparam, 0)
+                v = self.ev(a, env) if a is not None else _DEP
+                tg = self._lit_get(v, _c('state'), None) if v[0] == 'lit' \
+                    else _DEP
+                evs.append(('call', tg, False))
+                continue
+            name = dotted(c.func)
+            fn = c.func
+            if name == 'setattr' and len(c.args) == 3 or \
+                    isinstance(fn, ast.Attribute) and \
+                    fn.attr == '__setattr__' and len(c.args) == 2:
+                obj = c.args[0] if name == 'setattr' else fn.value
+                nm, val = c.args[-2], c.args[-1]
+                if self.ev(obj, env)[0] != 'recv':
+                    continue
+                n = self.ev(nm, env)
+                if n[0] == 'c' and n[1] != '_state':
+                    continue
+                evs.append(('write', self.ev(val, env), n[0] != 'c'))
+            elif isinstance(fn, ast.Attribute) and \
+                    fn.attr in ('update', '__setitem__') and (
+                        isinstance(fn.value, ast.Attribute) and
+                        fn.value.attr == '__dict__' and
+                        self.ev(fn.value.value, env)[0] == 'recv' or
+                        isinstance(fn.value, ast.Call) and
+                        dotted(fn.value.func) == 'vars' and fn.value.args and
+                        self.ev(fn.value.args[0], env)[0] == 'recv'):
+                evs.append(('write', _DEP, True))
+            elif isinstance(fn, ast.Attribute) and self.site is None and \
+                    self.ev(fn.value, env)[0] == 'recv' and \
+                    self._writes_state(self.prog.find_method(
+                        self.task_cls(), fn.attr)):
+                # the write is delegated: not followed
+                evs.append(('write', _DEP, True))
+
+    def effect(self, st, env):
+        """(environment after the statement took effect, events)"""
+        env = dict(env)
+        evs = []
+        if isinstance(st, (ast.Assign, ast.AnnAssign, ast.AugAssign, ast.Expr,
+                           ast.Return, ast.Raise, ast.Assert, ast.Delete)):
+            self.call_events(st, env, evs)
+        if isinstance(st, ast.Assign):
+            v = self.ev(st.value, env)
+            for t in st.targets:
+                self.bind(t, v, env, evs)
+        elif isinstance(st, ast.AnnAssign) and st.value is not None:
+            self.bind(st.target, self.ev(st.value, env), env, evs)
+        elif isinstance(st, ast.AugAssign):
+            o, v = self.ev(st.target, env), self.ev(st.value, env)
+            self.bind(st.target, ('u', None, o[2] or v[2]), env, evs)
+        elif isinstance(st, ast.With):
+            for it in st.items:
+                self.call_events(it.context_expr, env, evs)
+                if it.optional_vars is not None:
+                    self.bind(it.optional_vars, self._opaque(
+                        it.context_expr, env), env, evs)
+        elif isinstance(st, ast.ExceptHandler):
+            if st.name:
+                env[st.name] = _FREE
+        elif isinstance(st, ast.Delete):
+            for t in st.targets:
+                if isinstance(t, ast.Name):
+                    env.pop(t.id, None)
+        return env, evs
+
+    def iter_filter(self, g, head, env):
+        """conditions which every element delivered to the loop over the task
+        objects satisfies: False = this task is never delivered, else taint"""
+        t = head.ast.target
+        if not (isinstance(t, ast.Name) and t.id in self.recv):
+            return False, False
+        try:
+            from .c13 import iterable_guards
+        except Exception as e:                                  # noqa
+            raise AnalysisError('R06.6: filter recogniser of c13 not '
+                                'available (%r)' % e)
+        names, conds = iterable_guards(self.f, g, head.ast.iter, head.id)
+        taint = False
+        e2 = dict(env)
+        for n in names:
+            e2[n] = _RECV
+        for c in conds:
+            v = self.ev(c, e2)
+            tt = self.truth(v)
+            if tt is False:
+                return True, False
+            if tt is None and v[2]:
+                taint = True
+        return False, taint
+
+
+def _explore(scope, g, env0, limit=20000):
+    """events [(kind, value, tainted, uncertain, cfg node)] of all paths
+    through the function which are feasible for the scope's states"""
+    out = []
+    seen = set()
+    todo = [(g.entry.id, env0, False)]
+
+    def push(e, env, taint):
+        dst = g.nodes[e.dst]
+        if dst.kind == 'for' and not e.back and ('#i%d' % e.dst) in env:
+            env = dict(env)
+            del env['#i%d' % e.dst]
+        todo.append((e.dst, env, taint))
+
+    while todo:
+        nid, env, taint = todo.pop()
+        key = (nid, taint, tuple(sorted((k, repr(v)) for k, v in env.items())))
+        if key in seen:
+            continue
+        seen.add(key)
+        if len(seen) > limit:
+            raise AnalysisError('R06.6: %s: more than %d abstract states'
+                                % (scope.f.where, limit))
+        n = g.nodes[nid]
+        edges = g.succ[nid]
+        if n.kind in ('test', 'for') and n.ast is not None:
+            evs = []
+            scope.call_events(n.ast if n.kind == 'test' else n.ast.iter, env,
+                              evs)
+            for kind, val, unc in evs:
+                out.append((kind, val, taint, unc or kind == 'write', n))
+        if n.kind == 'test' and n.ast is not None:
+            v = scope.ev(n.ast, env)
+            tt = scope.truth(v)
+            for e in edges:
+                if e.label not in ('T', 'F'):
+                    push(e, env, taint)
+                elif tt is None:
+                    push(e, env, taint or v[2] or scope.hidden_dep(n.ast))
+                elif (e.label == 'T') == tt:
+                    push(e, env, taint)
+        elif n.kind == 'for':
+            it = scope.ev(n.ast.iter, env)
+            ikey = '#i%d' % nid
+            seq = list(it[1]) if it[0] == 'c' and isinstance(
+                it[1], (list, tuple)) else None
+            i = env[ikey][1] if ikey in env else 0
+            for e in edges:
+                if e.label == 'iter':
+                    e2 = dict(env)
+                    if seq is not None:
+                        if i >= len(seq):
+                            continue
+                        e2[ikey] = _c(i + 1)
+                        scope.bind(n.ast.target, _c(seq[i], it[2]), e2, [])
+                        push(e, e2, taint)
+                    else:
+                        never, tn = scope.iter_filter(g, n, env)
+                        if never:
+                            continue
+                        scope.bind(n.ast.target, ('u', None, it[2]), e2, [])
+                        push(e, e2, taint or tn)
+                elif e.label == 'done':
+                    if seq is not None and i < len(seq):
+                        continue
+                    e2 = dict(env)
+                    e2.pop(ikey, None)
+                    push(e, e2, taint)
+                else:
+                    push(e, env, taint)
+        elif n.kind in ('stmt', 'with', 'handler') and n.ast is not None:
+            env2, evs = scope.effect(n.ast, env)
+            for e in edges:
+                if e.label == 'exc':
+                    push(e, env, taint)
+                    continue
+                stop = False
+                for kind, val, unc in evs:
+                    out.append((kind, val, taint, unc, n))
+                    if kind == 'call' or not (
+                            val[0] == 'c' and val[1] == scope.cur and not unc):
+                        stop = True
+                if not stop:
+                    push(e, env2, taint)
+        else:
+            for e in edges:
+                push(e, env, taint)
+    return out
+
+
+def _in_replay(f, call):
+    """the call is made for the elements of the `passed` result of
+    _task_state_progress (the discipline decided by R06.3 / R06.5)"""
+    passed = set()
+    for n in walk(f.node):
+        if isinstance(n, ast.Assign) and isinstance(n.value, ast.Call) and \
+                call_name(n.value).endswith('_task_state_progress') and \
+                isinstance(n.targets[0], (ast.Tuple, ast.List)) and \
+                len(n.targets[0].elts) == 2 and \
+                isinstance(n.targets[0].elts[1], ast.Name):
+            passed.add(n.targets[0].elts[1].id)
+    if not passed:
+        return False
+    for n in walk(f.node):
+        if isinstance(n, ast.For) and isinstance(n.iter, ast.Name) and \
+                n.iter.id in passed and any(c is call for c in calls_in(n)):
+            return True
+    return False
+
+
+def _update_verdict(prog, upd, f, call, cur, tgt, cache):
+    """what Task._update does for a task in state cur and an update to tgt
+    when called by `call` in f (call None: any values of the other
+    parameters): ('leaves', new state, loc) | ('refused',) | ('unsure', why)"""
+    a = upd.node.args
+    if a.vararg or a.kwarg or (call is not None and any(
+            isinstance(x, ast.Starred) for x in call.args)):
+        raise AnalysisError('UNRECOGNISED-IDIOM %s: signature / call `%s`'
+                            % (upd.where, short(call, 50)))
+    params = [x.arg for x in a.posonlyargs + a.args + a.kwonlyargs]
+    if len(params) < 2:
+        raise AnalysisError('UNRECOGNISED-IDIOM %s: parameters' % upd.where)
+    env = {}
+    # how the call binds the parameters: the first one after self is the
+    # update dict; constants and defaults are folded, the rest is free
+    rest = params[2:]
+    given = dict(zip(rest, call.args[1:])) if call is not None else {}
+    for k in (call.keywords if call is not None else []):
+        if k.arg is not None:
+            given[k.arg] = k.value
+    dflt = {}
+    pos = a.posonlyargs + a.args
+    for prm, dv in zip(pos[len(pos) - len(a.defaults):], a.defaults):
+        dflt[prm.arg] = dv
+    for prm, dv in zip(a.kwonlyargs, a.kw_defaults):
+        if dv is not None:
+            dflt[prm.arg] = dv
+    sig = []
+    for p in rest:
+        if p in given:
+            v = prog.fold(f.module, given[p])
+        elif p in dflt and call is not None:
+            v = prog.fold(upd.module, dflt[p])
+        else:
+            v = UNKNOWN
+        env[p] = _FREE if v is UNKNOWN else _c(v)
+        sig.append((p, repr(env[p])))
+    env[params[1]] = _UPD
+    key = (cur, tgt, tuple(sig))
+    if key in cache:
+        return cache[key]
+    scope = _Scope(prog, upd, cur, tgt, recv=(params[0],))
+    g = cfg_of(upd)
+    res = ('refused',)
+    unsure = None
+    for kind, val, taint, unc, node in _explore(scope, g, env):
+        if kind != 'write':
+            continue
+        if val[0] == 'c' and not unc and val[1] == cur:
+            continue
+        if val[0] == 'c' and not unc and not taint:
+            res = ('leaves', val[1], upd.loc(node.ast))
+            break
+        unsure = ('unsure', '`%s` %s' % (
+            short(node.ast, 50), 'is reached behind a test on the states the '
+            'evaluator cannot decide' if taint else 'writes a value / an '
+            'attribute the evaluator cannot determine'))
+    if res[0] == 'refused' and unsure:
+        res = unsure
+    cache[key] = res
+    return res
+
+
+def r06_6(prog, rep, rid='R06.6'):
+    rep.rule(rid, 'a final state is never left: every call of Task._update '
+             'outside the replay of _task_state_progress is, for each final '
+             'current state of the task, either excluded by the guards of the '
+             'caller or refused by the guards of Task._update (the two sites '
+             'together cover all of FINAL)', minimum=3)
+    final = list(prog.const(STATES, 'FINAL'))
+    task = prog.cls(*TASK)
+    upd = prog.find_method(task, '_update')
+    if upd is None:
+        raise AnalysisError('anchor %s._update not found' % task.where)
+    rep.saw(upd)
+    sites = [(f, c) for f, c in _update_callers(prog) if not _in_replay(f, c)]
+    n_sites = 0
+    undecided = []
+    for f, call in sites:
+        rep.saw(f)
+        n_sites += 1
+        g = cfg_of(f)
+        if id(call) not in I.stmt_node_map(g):
+            raise AnalysisError('UNRECOGNISED-IDIOM %s: `%s` is not a '
+                                'statement of the function itself (nested '
+                                'function / lambda)' % (f.where,
+                                                        short(call, 50)))
+        recv = unparse(call.func.value)
+        dparam = (upd.params + ['task_dict'] * 2)[1]
+        cache = {}
+        excluded, refused, rows = [], [], []
+        for cur in final:
+            scope = _Scope(prog, f, cur, None, recv=(recv,), site=call)
+            scope.dparam = dparam
+            env0 = {p: _FREE for p in f.params}
+            reach = [x for x in _explore(scope, g, env0) if x[0] == 'call']
+            if not reach:
+                excluded.append(cur)
+                rows.append((cur, 'excluded', None))
+                continue
+            sure = [x for x in reach if not x[2]]
+            verdicts = []
+            for kind, tg, taint, unc, node in reach:
+                if tg is None:
+                    continue         # the update carries no state
+                if tg[0] != 'c':
+                    verdicts.append((taint, ('unsure', 'the target state of '
+                                             'the update is not a constant')))
+                    continue
+                verdicts.append((taint, _update_verdict(
+                    prog, upd, f, call, cur, tg[1], cache) + (tg[1],)))
+            if all(v[0] == 'refused' for t, v in verdicts):
+                refused.append(cur)
+                rows.append((cur, 'refused', None))
+                continue
+            leaves = [v for t, v in verdicts if v[0] == 'leaves' and not t]
+            if leaves and sure:
+                rows.append((cur, 'left', leaves[0]))
+                continue
+            why = [v[1] for t, v in verdicts if v[0] == 'unsure']
+            undecided.append(
+                'UNRECOGNISED-IDIOM %s: cannot decide whether `%s` changes '
+                'the state of a %s task (%s)' % (
+                    f.where, short(call, 50), cur, why[0] if why else
+                    'the call is reached only behind a test on the task '
+                    'state the evaluator cannot decide'))
+        for cur, what, v in rows:
+            if what != 'left':
+                rep.ok(rid, f, '`%s` for a %s task: %s' % (
+                    short(call, 40), cur, 'never called (guards of the caller)'
+                    if what == 'excluded' else 'Task._update does not write '
+                    'the state'), f.loc(call))
+                continue
+            new, wloc, tgt = v[1], v[2], v[3]
+            rep.bad(rid, f, 'final-left:%s' % cur,
+                    '%s calls `%s` (target state %s) also for a task that is '
+                    'already %s, and Task._update then writes the state (%s): '
+                    'the final state %s is replaced by %s.  The guards of the '
+                    'caller exclude the current states %s, Task._update '
+                    'refuses the write for %s; together they must cover all '
+                    'of FINAL %s' % (
+                        f.qual, short(call, 50), tgt, cur, wloc, cur, new,
+                        sorted(excluded) or 'none', sorted(refused) or 'none',
+                        sorted(final)),
+                    f.loc(call),
+                    history='a task becomes %s; then %s runs for it (for '
+                    '_pilot_state_cb: the pilot the task is bound to becomes '
+                    'final): Task.state changes %s -> %s and the task is '
+                    'announced / published once more' % (
+                        cur, f.qual, cur, new))
+    if undecided:
+        raise AnalysisError(undecided[0])
+    if n_sites < 1:
+        raise AnalysisError('R06.6: no call of Task._update outside the '
+                            'replay loop found (the pilot-death callback is '
+                            'expected)')
+
+
+# ------------------------------------------------------------------------------
 #
 def run(prog, rep, tier):
     rep.decided = ('the state table is a linear order with shared final '
@@ -838,23 +1721,49 @@ def run(prog, rep, tier):
         '[target]; the batch loop isolates raising calls per notification, '
         'skips known states, replays each passed state through _update and '
         'collects exactly one callback record per applied state, delivered '
-        'after the loop.')
+        'after the loop; every call of Task._update outside that replay '
+        '(the pilot-death callback) is, for each final current state, either '
+        'excluded by the guards of the caller or refused by Task._update '
+        '(decided by evaluating both functions over the state constants).')
     rep.undecided = ('value semantics of _task_state_progress beyond its '
         'guards; what application callbacks do.')
     rep.assumptions = ['no other module writes Task._state through setattr '
                        'with a computed name',
-                       'ru pubsub invokes _state_sub_cb once per message']
+                       'ru pubsub invokes _state_sub_cb once per message',
+                       'R06.6: data attributes of a Task other than _state '
+                       'do not encode its state; the state of a task does '
+                       'not change between the guards of a caller and its '
+                       'call of _update (both under the same callback)']
     rep.attempt(r06_1, prog, rep)
     rep.attempt(r06_2, prog, rep)
     rep.attempt(r06_3, prog, rep)
     rep.attempt(r06_4, prog, rep)
     rep.attempt(r06_5, prog, rep)
+    rep.attempt(r06_6, prog, rep)
 
 
 # ------------------------------------------------------------------------------
 _S = 'states.py'
 _T = 'task.py'
 _M = 'task_manager.py'
+
+_GUARD = ("                    if task.state in rps.FINAL:\n"
+          "                        continue\n\n")
+_GTEST = "if task.state in rps.FINAL:\n                        continue"
+_CALL = ("                    task._update(update)\n"
+         "                    tasks.append(task.as_dict())\n")
+_CALL_CHANGED = ("                    before = task.state\n"
+                 "                    task._update(update)\n\n"
+                 "                    if task.state != before:\n"
+                 "                        tasks.append(task.as_dict())\n")
+_DICT = ("                    update = {'uid'             : task.uid,\n"
+         "                              'exception'       : 'RuntimeError(\"pilot died\")',\n"
+         "                              'exception_detail': 'pilot %s is final' % pid,\n"
+         "                              'state'           : rps.FAILED}\n\n")
+_STICKY = "        if current in [rps.FAILED, rps.DONE]:"
+_UPD_DEF = "    def _update(self, task_dict, reconnect=False):"
+_TLOOP = ("                for task in self._tasks.values():\n\n"
+          "                    # only tasks bound")
 
 MUTATIONS = [
     dict(name='R06.1 two non-final states share a value', rules=('R06.1',), edits=[
@@ -916,6 +1825,23 @@ MUTATIONS = [
     dict(name='R06.5 callbacks never delivered', rules=('R06.5',), edits=[
         (_M, "                for task, state in to_notify:\n                    self._task_cb(task, state)\n", "                pass\n"),
         (_M, "                self._bulk_cbs(set([task for task,_ in to_notify]))", "                pass")]),
+    dict(name='R06.6 pilot-death callback relies on Task._update to skip final tasks (seed C06-c)', rules=('R06.6',), edits=[
+        (_M, _GUARD, ""), (_M, _CALL, _CALL_CHANGED)],
+         note='_update refuses only DONE and FAILED: a CANCELED task becomes FAILED'),
+    dict(name='R06.6 caller guard narrowed to DONE/FAILED', rules=('R06.6',), edits=[
+        (_M, _GTEST, "if task.state in [rps.DONE, rps.FAILED]:\n                        continue")]),
+    dict(name='R06.6 caller guard tests the state of the pilot', rules=('R06.6',), edits=[
+        (_M, _GTEST, "if state not in rps.FINAL:\n                        continue")]),
+    dict(name='R06.6 caller guard through a Task property that knows two finals only', rules=('R06.6',), edits=[
+        (_M, _GTEST, "if task.is_final:\n                        continue"),
+        (_T, _UPD_DEF, "    @property\n    def is_final(self):\n        return self._state in [rps.DONE, rps.FAILED]\n\n" + _UPD_DEF)]),
+    dict(name='R06.6 caller guard dropped, early return of _update narrowed to FAILED', rules=('R06.6',), edits=[
+        (_M, _GUARD, ""), (_M, _CALL, _CALL_CHANGED),
+        (_T, _STICKY, "        if current in [rps.FAILED]:")],
+         note='also R06.3: a DONE task whose pilot dies becomes FAILED'),
+    dict(name='R06.6 caller guard dropped, refusal in _update only for reconnects', rules=('R06.6',), edits=[
+        (_M, _GUARD, ""), (_M, _CALL, _CALL_CHANGED),
+        (_T, _STICKY, "        if current in rps.FINAL and reconnect:")]),
     dict(name='R06.5 intermediate states dropped for every final target (seed C06-a)', rules=('R06.5',), edits=[
         (_M, "                    if target in [rps.CANCELED, rps.FAILED]:\n                        # don't replay", "                    if target in rps.FINAL:\n                        # don't replay")]),
 ]
@@ -934,6 +1860,51 @@ SILENT = [
         (_S, "        return [current, []]\n\n    # dig out all intermediate states, skip current\n    passed = list()\n    for i in range(cur + 1,tgt):\n        passed.append(_task_state_inv[i])", "        return current, []\n\n    # dig out all intermediate states, skip current\n    passed = list()\n    for i in range(cur + 1,tgt):\n        passed.append(_task_state_inv[i])")]),
     dict(name='progress arguments via keywords-free locals renamed', edits=[
         (_M, "                current = task.state\n                target  = task_dict['state']\n", "                current = task.state\n                target  = task_dict['state']\n                cur_s, tgt_s = current, target\n")]),
+    dict(name='R06.6 site: task state hoisted into a local', edits=[
+        (_M, _GUARD, "                    tstate = task.state\n                    if tstate in rps.FINAL:\n                        continue\n\n")]),
+    dict(name='R06.6 site: finality hoisted into a boolean', edits=[
+        (_M, _GUARD, "                    is_final = task.state in rps.FINAL\n                    if is_final:\n                        continue\n\n")]),
+    dict(name='R06.6 site: the two guards merged with or', edits=[
+        (_M, "                    if task.pilot != pid:\n                        continue\n\n" + _GUARD,
+             "                    if task.pilot != pid or task.state in rps.FINAL:\n                        continue\n\n")]),
+    dict(name='R06.6 site: guard in positive, nested form', edits=[
+        (_M, _GUARD + _DICT + _CALL,
+             "                    if task.state not in rps.FINAL:\n"
+             "                        update = {'uid'  : task.uid,\n"
+             "                                  'exception'       : 'RuntimeError(\"pilot died\")',\n"
+             "                                  'exception_detail': 'pilot %s is final' % pid,\n"
+             "                                  'state': rps.FAILED}\n\n"
+             "                        task._update(update)\n"
+             "                        tasks.append(task.as_dict())\n")]),
+    dict(name='R06.6 site: guard as filter of the iterated list', edits=[
+        (_M, _TLOOP, "                for task in [t for t in self._tasks.values()\n                               if t.state not in rps.FINAL]:\n\n                    # only tasks bound"),
+        (_M, _GUARD, "")]),
+    dict(name='R06.6 site: guard in an extracted helper method', edits=[
+        (_M, _GUARD, "                    if self._is_final(task):\n                        continue\n\n"),
+        (_M, "    def _pilot_state_cb(self, pilots, state=None):\n", "    def _is_final(self, task):\n        return task.state in rps.FINAL\n\n    def _pilot_state_cb(self, pilots, state=None):\n")]),
+    dict(name='R06.6 site: guard through a Task property', edits=[
+        (_M, _GTEST, "if task.is_final:\n                        continue"),
+        (_T, _UPD_DEF, "    @property\n    def is_final(self):\n        return self._state in rps.FINAL\n\n" + _UPD_DEF)]),
+    dict(name='R06.6 site: update built with dict() in the call', edits=[
+        (_M, _DICT + "                    task._update(update)",
+             "                    task._update(dict(uid=task.uid, state=rps.FAILED,\n"
+             "                                      exception='RuntimeError(\"pilot died\")',\n"
+             "                                      exception_detail='pilot %s is final' % pid))")]),
+    dict(name='R06.6 sites: guard moved completely into Task._update (all of FINAL refused there)', edits=[
+        (_M, _GUARD, ""), (_M, _CALL, _CALL_CHANGED),
+        (_T, _STICKY, "        if current in rps.FINAL:")],
+         note='the seed C06-c made sound: the callee really ignores every final task'),
+    dict(name='R06.6 sites: guard moved into Task._update as a chain of ==', edits=[
+        (_M, _GUARD, ""), (_M, _CALL, _CALL_CHANGED),
+        (_T, _STICKY, "        if current == rps.DONE or current == rps.FAILED or \\\n           current == rps.CANCELED:")]),
+    dict(name='R06.6 sites: caller excludes CANCELED, Task._update refuses DONE/FAILED', edits=[
+        (_M, _GTEST, "if task.state == rps.CANCELED:\n                        continue"),
+        (_M, _CALL, _CALL_CHANGED)],
+         note='the two sites cover FINAL together'),
+    dict(name='R06.6 callee: the state is written from the corrected target', edits=[
+        (_M, _GUARD, ""), (_M, _CALL, _CALL_CHANGED),
+        (_T, "            val = task_dict.get(key, None)\n", "            val = task_dict.get(key, None)\n            if key == 'state':\n                val = target\n")],
+         note='for a CANCELED task target was set to current: the write keeps CANCELED'),
     dict(name='FAILED/CANCELED truncation removed (information only)', edits=[
         (_M, "                    if target in [rps.CANCELED, rps.FAILED]:\n                        # don't replay intermediate states\n                        passed = passed[-1:]\n", "")]),
 ]
